@@ -19,12 +19,7 @@ const (
 	verifMaxTime = int64(1) << 40
 )
 
-func verifHash(i int) core.InfoHash {
-	var h core.InfoHash
-	h[0] = byte(i + 1)
-	h[19] = byte(0xA0 + i)
-	return h
-}
+func verifHash(i int) core.InfoHash { return conn.VerifTorrentHash(i) }
 
 func verifPeer(i int) core.PeerID {
 	var p core.PeerID
@@ -72,6 +67,10 @@ type verifEnv struct {
 }
 
 func verifNewEnv(np int) *verifEnv {
+	// connstate.State is single-threaded by contract (owned by the event loop);
+	// the only goroutine here is the one Conn.Close starts for its callbacks.
+	verif.Option("max_preempt", 0)
+	verif.Option("sched_fixed", 1)
 	e := &verifEnv{np: np}
 	e.clk = clock.NewMock()
 	e.max = verif.IntRange("max_open_conn", 1, np)
@@ -86,7 +85,7 @@ func verifNewEnv(np int) *verifEnv {
 	for t := 0; t < verifNT; t++ {
 		for p := 0; p < np; p++ {
 			for v := 0; v < verifNV; v++ {
-				e.conns[t][p][v] = conn.VerifNewConn(verifHash(t), verifPeer(p))
+				e.conns[t][p][v] = conn.VerifNewConn(t, verifPeer(p))
 			}
 		}
 	}
@@ -140,7 +139,7 @@ func (e *verifEnv) observePending() {
 	for t := 0; t < verifNT; t++ {
 		total := 0
 		for p := 0; p < e.np; p++ {
-			c := conn.VerifNewConn(verifHash(t), verifPeer(p))
+			c := conn.VerifNewConn(t, verifPeer(p))
 			err := e.s.MovePendingToActive(c)
 			switch e.g[t][p].status {
 			case verifPending:
